@@ -144,9 +144,9 @@ def run_case(case, R):
         R.undecided('C05.posterior', 'base fit raised')
         return
 
-    def noise_fn():
+    def noise_fn(reps=range(3)):
         nz = dict(post=0.0, lp=0.0, w=0.0, trace=0.0)
-        for rep in range(3):
+        for rep in reps:
             rr = np.random.default_rng([*case['rs'], 8, rep])
             dd = dict(s.data)
             dd['y'] = s.data['y'] * (1 + 2.0 ** -50 * rr.uniform(-1, 1, size=s.data['y'].shape))
@@ -163,16 +163,17 @@ def run_case(case, R):
             # different ways are compared WITH EACH OTHER (never with the tied base run: a tie break by class position acts on exactly
             # tied rows only, both of these runs are free of it and so measure the instability of the unchanged algorithm alone)
             pair = []
-            for rep in range(2):
+            for rep in list(reps)[:2 if len(reps) <= 3 else 6]:
                 rr = np.random.default_rng([*case['rs'], 9, rep])
                 ini = np.array(s.init, dtype=float)
                 ini = ini * (1 + 2.0 ** -50 * rr.uniform(-1, 1, size=ini.shape))
                 tot = ini.sum(-2, keepdims=True)
                 pair.append(run(ini / np.where(tot > 0, tot, 1.0), s.mask))
-            for a, b in zip(pair[0][3][1:], pair[1][3][1:]):
-                nz['trace'] = max(nz['trace'], float(np.abs(a['affiliation'] - b['affiliation']).max()))
-            for j, k in enumerate(('post', 'lp', 'w')):
-                nz[k] = max(nz[k], float(np.abs(pair[0][j] - pair[1][j]).max()))
+            for other in pair[1:]:
+                for a, b in zip(pair[0][3][1:], other[3][1:]):
+                    nz['trace'] = max(nz['trace'], float(np.abs(a['affiliation'] - b['affiliation']).max()))
+                for j, k in enumerate(('post', 'lp', 'w')):
+                    nz[k] = max(nz[k], float(np.abs(pair[0][j] - other[j]).max()))
         return nz
 
     judge = diff.Judge(R, noise_fn)
@@ -191,7 +192,12 @@ def run_case(case, R):
         except Exception as e:
             if not instr.is_library_exception(e):
                 raise
-            if 'ill-defined empirical covariance' in str(e) or isinstance(e, np.linalg.LinAlgError):
+            rounding_level = False
+            if isinstance(e, AssertionError):
+                import re
+                vals = [float(v) for v in re.findall(r'[-+]?\d+\.?\d*(?:[eE][-+]?\d+)?', str(e))]
+                rounding_level = bool(vals) and min(abs(v) for v in vals) < 1e-12 and max(abs(v) for v in vals) <= 1.0 + 1e-9       # scatter eigenvalues, one of them 0 up to rounding
+            if 'ill-defined empirical covariance' in str(e) or isinstance(e, np.linalg.LinAlgError) or rounding_level:
                 # numerically singular class covariance: whether the Cholesky factorisation fails is decided by rounding
                 R.undecided('C05.posterior', 'numerically singular covariance (raise decided by rounding)')
                 continue
